@@ -197,6 +197,9 @@ func run(c Case, preload bool, take int) (outcome, error) {
 			return err
 		}
 		out.items = append(out.items, g)
+		// before an instance releases an ammo its gun has written into the request (the built-in gun points req.URL at
+		// its target): with preload the same entry is delivered again on the next pass and must not remember that
+		ag.ShootLikeGun(a, len(out.items)%2 == 0, "127.0.0.9:8080")
 		return nil
 	})
 	out.runErr, out.endSeen, out.hung = res.RunErr, res.EndSeen, res.Hung
